@@ -941,8 +941,9 @@ func (t *e2Trace) judgeC02() (out []e2Finding) {
 		hash    string
 	}
 	signs := map[key][]signed{}
-	saved := map[string]uint64{}   // kind|sig -> seq of the first successful (persisting) save
-	visible := map[string]uint64{} // kind|sig -> seq at which the signature became durable or left the machine
+	saved := map[string]uint64{}     // kind|sig -> seq of the first successful (persisting) save
+	savedHash := map[string]string{} // kind|sig -> target the signature was recorded for
+	visible := map[string]uint64{}   // kind|sig -> seq at which the signature became durable or left the machine
 	reported := map[key]bool{}
 	for i := range t.evs {
 		e := &t.evs[i]
@@ -989,6 +990,7 @@ func (t *e2Trace) judgeC02() (out []e2Finding) {
 				k := e.Sub + "|" + e.Sig
 				if _, ok := saved[k]; !ok {
 					saved[k] = e.Seq
+					savedHash[k] = e.Hash
 				}
 				if _, ok := visible[k]; !ok {
 					visible[k] = e.Seq
@@ -1007,6 +1009,12 @@ func (t *e2Trace) judgeC02() (out []e2Finding) {
 				out = append(out, e2Finding{Seq: e.Seq, Key: "C02:" + e.Sub + "-released-before-recorded-in-action-store",
 					What: fmt.Sprintf("%s signature %s for %d/%d arrived on the actions channel at seq %d; no earlier successful ActionStore save of these bytes (first save seq: %d)",
 						e.Sub, e2hex(e.Sig), e.H, e.R, e.Seq, s)})
+			} else if h, ok := savedHash[k]; ok && (e.Sub == "prevote" || e.Sub == "precommit") && h != e.Hash {
+				// what is released must be what was recorded: the same signature handed on as a
+				// vote for another target is a second, different vote in the eyes of everybody else
+				out = append(out, e2Finding{Seq: e.Seq, Key: "C02:" + e.Sub + "-released-for-other-target-than-recorded",
+					What: fmt.Sprintf("%s signature %s for %d/%d was recorded in the action store as a vote for %s and released to the mirror as a vote for %s",
+						e.Sub, e2hex(e.Sig), e.H, e.R, e2hexOrNil(h), e2hexOrNil(e.Hash))})
 			}
 		}
 	}
